@@ -551,6 +551,7 @@ def gen_scale_world(src, cls, tag="w"):
       manyboxes  144 boxes of 2^3 (or 2^2) in 1-2 files (72+ boxes per file, not a multiple of 64)
       farcorner  5 levels, fine boxes at indices >= 1000 in every direction (FAB headers > 100 bytes)
       manyfields 40-45 fields on a tiny mesh
+      manyfiles  306 boxes, each in a binary file of its own
       megabox    one box of 128 x 128 x 66 cells (> 2**20 values per component)
       longdomain 6 levels over a 16384 x 4 x 2 domain: three 4-cell wide boxes per fine level at the far
                  end, x indices up to 524287 (index comparisons with a relative tolerance go blind there)
@@ -590,6 +591,15 @@ def gen_scale_world(src, cls, tag="w"):
             hi = 2 * hi + 1
             m.boxes.append([(tuple([hi - 7] * 3), tuple([hi] * 3)), ((hi - 15, hi - 7, hi - 7), (hi - 8, hi, hi))])
         m.fields = ["phi"]
+    elif cls == "manyfiles":
+        # 306 boxes of 2 x 2 cells, each in a binary file of its own (more than 256 files in one level)
+        m.ndims = 2
+        m.nlev = 1
+        m.geo_low, m.geo_high = [0.0, 0.0], [18.0, 17.0]
+        m.grid_sizes = [(36, 34)]
+        m.dx = [[0.5, 0.5]]
+        m.boxes = [[((2 * i, 2 * j), (2 * i + 1, 2 * j + 1)) for j in range(17) for i in range(18)]]
+        m.fields = ["a", "b"][:src.draw(f"{tag}.scale.nf", 1, 2)]
     elif cls == "megabox":
         # one box of 128 x 128 x 66 = 1 081 344 cells: more than 2**20 values per component and not a
         # multiple of it (chunked readers), 8.6 MB per component
@@ -623,7 +633,12 @@ def gen_scale_world(src, cls, tag="w"):
         m.boxes = [[(tuple([0] * m.ndims), tuple([1, 3, 3][:m.ndims])), (tuple([2] + [0] * (m.ndims - 1)), tuple([3] * m.ndims))]]
         m.fields = [f"field_{k:02d}" for k in range(src.draw(f"{tag}.scale.nfields", 40, 45))]
     m.steps = [7] * m.nlev
-    gen_layout(src, m, tag=tag, max_files=2 if cls in ("manyboxes", "longdomain") else 3)
+    m.scale_cls = cls
+    if cls == "manyfiles":
+        order = rng.permutation(len(m.boxes[0]))
+        m.layout = [[(f"Cell_D_{int(order[b]):05d}", 0) for b in range(len(m.boxes[0]))]]
+    else:
+        gen_layout(src, m, tag=tag, max_files=1 if cls == "longdomain" else (2 if cls == "manyboxes" else 3))
     fill_random(m, int(rng.integers(0, 10 ** 6)))
     return m
 
